@@ -8,7 +8,7 @@ CRATES = ['basset_sei_hub', 'basset_sei_token_bsei', 'basset_sei_token_stsei', '
 BOUNDS = {'quick': {'delegations': '1..2', 'validators': 1}, 'thorough': {'delegations': '1..3'}}
 ASSUMPTIONS = ['E1-E4; the hub is not paused; both tokens registered', 'the holder unbonds 1 <= amount <= its balance <= the token supply',
                'excluded by the property: a validator set slashed to zero (total delegated >= 1)',
-               'withdrawal success once matured is obligation release:fails of C01']
+               'withdrawal success once matured: obligation withdraw_matured_with_pending_request here (one matured batch, the holder also has a request in the open batch) and release:fails of C01']
 OUTSIDE = ['the swap / oracle contracts can only influence a transaction that queries or calls them: decided on the query/message log of every path']
 
 
@@ -120,7 +120,12 @@ def ob_independent_tokens(ctx):
     ctx.witness_found('%d token / reward paths inspected' % n)
 
 
-OBLIGATIONS = [('unbond_bsei_d1', ob_unbond('b', 1)), ('unbond_stsei_d1', ob_unbond('s', 1)), ('unbond_bsei_d2', ob_unbond('b', 2)),
+def _withdraw_pending(ctx):
+    from checks.c01 import ob_release
+    return ob_release(1, 0, real_kernel=True, pending=True)(ctx)
+
+
+OBLIGATIONS = [('withdraw_matured_with_pending_request', _withdraw_pending), ('unbond_bsei_d1', ob_unbond('b', 1)), ('unbond_stsei_d1', ob_unbond('s', 1)), ('unbond_bsei_d2', ob_unbond('b', 2)),
                ('unbond_stsei_d2', ob_unbond('s', 2)), ('independent_hub', ob_independent_hub), ('independent_tokens', ob_independent_tokens)]
 
 
@@ -130,6 +135,9 @@ def tier_filter(name, tier):
 
 def ORACLE(v, scn, out):
     key = v.get('key') or ''
+    if key.startswith('release:'):
+        from checks.c01 import ORACLE as O1
+        return O1(v, scn, out)
     res = out.get('result', {})
     if key.endswith(':blocked') or key == 'zero_pool':
         if 'ok' in res:
